@@ -30,6 +30,7 @@ use sha1::Digest;
 
 pub use self::datetime::format_date;
 pub use self::datetime::format_datetime;
+pub use self::datetime::local_today;
 pub use self::datetime::parse_date;
 pub use self::datetime::parse_datetime;
 pub use self::datetime::system_time_to_local;
